@@ -132,14 +132,16 @@ Definition acc_cert_ok (i j labels par eidx dep rep : list N) : bool :=
       let rm := mof_list 0 rep mempty in
       let im := mof_list 0 i mempty in
       let jm := mof_list 0 j mempty in
+      let nN := N.of_nat n in
+      let ne := N.of_nat (length i) in
       (length i =? length j)%nat && (n =? S (N.to_nat (list_maxN (i ++ j))))%nat &&
       forallb (fun e => N.eqb (mgetd lm (fst e)) (mgetd lm (snd e))) (combine i j) &&
       forallb (fun v =>
          let p := mgetd pm v in
          if N.eqb p v then N.eqb (mgetd rm (mgetd lm v)) v
-         else N.ltb p (N.of_nat n) && N.ltb (mgetd dm p) (mgetd dm v) &&
+         else N.ltb p nN && N.ltb (mgetd dm p) (mgetd dm v) &&
               (let k := mgetd em v in
-               N.ltb k (N.of_nat (length i)) &&
+               N.ltb k ne &&
                ((N.eqb (mgetd im k) v && N.eqb (mgetd jm k) p) || (N.eqb (mgetd im k) p && N.eqb (mgetd jm k) v))))
         (nseq 0 n)
   end.
